@@ -135,8 +135,6 @@ def kindHook (o : Opts) (env : Env) (n : Node) (st : St) : Node × St :=
   match n with
   | .mk .jsxOpening _ _ => openingHook n st
   | .mk .importDecl _ _ => (n, importHook n st)
-  | .mk .tsIface _ _ => (n, ifaceHook o n st)
-  | .mk .tsAlias _ _ => (n, aliasHook o n st)
   | .mk .call _ _ => callHook o env n st
   | .mk .declarator _ _ => declaratorHook o n st
   | n => (n, st)
@@ -224,6 +222,8 @@ def transformModule (o : Opts) (env : Env) (m : Node) : Node × St :=
   match m with
   | .mk .module as (.mk .list las items :: restKids) =>
     let st : St := scanPragmas env {}
+    -- every interface / type alias of the module is registered up front
+    let st := if o.resolveType then collectTypes m st else st
     let (items, st) := visitKids o env .list .normal 0 items st
     let (restKids, st) := visitKids o env .module .normal 1 restKids st
     let (items, st) := finishModule items st
